@@ -57,7 +57,7 @@ impl Reservoir {
             metrics::verif::point("res.store.pre", &[idx as i64]);
             self.values[idx].store(value.to_bits(), Relaxed);
         } else {
-            let maybe_idx = fastrand(idx);
+            let maybe_idx = fastrand(idx + 1);
             #[cfg(metrics_verif)]
             metrics::verif::point("res.draw.post", &[maybe_idx as i64]);
             if maybe_idx < self.values.len() {
